@@ -59,6 +59,8 @@ type aspectCallFrame struct {
 	// Placed at end on purpose. The RLP will be decoded to 0 instead of
 	// nil if there are non-empty elements after in the struct.
 	Value *big.Int `json:"value,omitempty" rlp:"optional"`
+
+	exited bool // the result has been filled in by CaptureAspectExit
 }
 
 func (f aspectCallFrame) TypeString() string {
@@ -221,11 +223,13 @@ func (t *callTracer) CaptureAspectExit(joinpoint types.JoinPointRunType, result 
 	// reset join point if we exit
 	last := len(t.callstack) - 1
 	t.callstack[last].joinPoint = types.JoinPointRunType_Unknown
-	// the Aspect that exits is the most recently entered one of this join point
+	// the Aspect that exits is the most recently entered one of this join point that is still running
+	// (with onlyTopCall the Aspects of inner calls, which may run inside another Aspect, are attached here too)
 	for i := len(t.callstack[last].JoinPoints) - 1; i >= 0; i-- {
-		if t.callstack[last].JoinPoints[i].Type == joinpoint {
+		if t.callstack[last].JoinPoints[i].Type == joinpoint && !t.callstack[last].JoinPoints[i].exited {
 			t.callstack[last].JoinPoints[i].GasUsed = t.callstack[last].JoinPoints[i].Gas - result.Gas
 			t.callstack[last].JoinPoints[i].processOutput(result.Ret, result.Err)
+			t.callstack[last].JoinPoints[i].exited = true
 			break
 		}
 	}
